@@ -16,6 +16,8 @@ var c06U = append(append([]uval{}, universe...), uval{"fn", nil, "func () { retu
 	// the non-finite numbers: every comparison with NaN is false, so a bounds check written as a float comparison lets it through
 	// a string that is not a valid regular expression (every failing case is evaluated a second time inside try/except: error paths that leave state behind)
 	uval{"badre", nil, `"("`},
+	// containers that hold containers (comparison and membership recurse)
+	uval{"{a:[1]}", nil, `{"a":[1]}`},
 	uval{"NaN", nil, "math.naN()"}, uval{"+Inf", nil, "math.inf(1)"}, uval{"-Inf", nil, "math.inf(-1)"})
 
 func isControl(err error) bool {
@@ -198,6 +200,9 @@ func c06BuiltinCalls(c *Ctx, maxLen int) {
 				fmt.Sprintf("let [x, y] := %s", a.src),
 				fmt.Sprintf("mutex m { r := %s + %s }", a.src, b.src),
 				fmt.Sprintf("r := \"{{%s}}\"", strings.Replace(a.src, `"`, `'`, -1)),
+				// every field of a caught error object is an ECAL value: usable with every operator and built-in
+				fmt.Sprintf("func g(x) {\n  return x + %s\n}\ntry {\n  g(%s)\n} except e {\n  r := [e.trace == e.trace, e.trace != [], e.trace in [e.trace], len(e.trace), e.trace[0], concat(e.trace, [1]), e.data == e.data, e.type + e.detail, e.line + e.pos, e.source, e.error]\n  for t in e.trace {\n    u := t\n  }\n  e.trace := add(e.trace, 1)\n}", a.src, b.src),
+				fmt.Sprintf("try {\n  raise(%s, %s, %s)\n} except e {\n  r := [e.data == e.data, e.data == %s, e.data in [e.data], e.type == e.type, e.detail == %s, e.trace == e.trace, len(e.trace)]\n}", a.src, b.src, a.src, a.src, b.src),
 				// a caught error whose trace runs through a commented call (the trace is pretty-printed)
 				fmt.Sprintf("func g(x) {\n  return x + %s\n}\ntry {\n  /**/ g(%s)\n} except e {\n  r := e.trace\n}", a.src, b.src),
 				fmt.Sprintf("func g(x) {\n  return x + %s\n}\ntry {\n  /* c\n d */ g(%s) # e\n} except e {\n  r := e.trace\n}", a.src, b.src),
